@@ -47,9 +47,51 @@ def unit(u):
     return acc
 
 
+def mp_unit(u):
+    """The multiprocessing solver over the real sub-problem objects of Problem.split(k, idx): every vector it hands to the
+    caller (enumeration, minimise, maximise) is checked against the *original* problem (domains, offsets, relations).
+    One canonical arrival order per case; every merge is C11's subject."""
+    from mc import schedmc as M
+
+    tier, specs = u
+    acc = Acc()
+    cfg = ("bc", "first", "min", None)
+    for spec in specs:
+        nv = len(spec["vars"])
+        for idx in range(min(len(spec["doms"]), nv)):
+            for k in (1, 2, 3):
+                problem = S.build(spec)
+                try:
+                    parts = problem.split(k, idx)
+                except Exception as e:  # noqa
+                    acc.c["mp_split_raised(reported by C12)"] += 1
+                    continue
+                solvers = [S.make_solver(p, spec, cfg) for p in parts]
+                for mode, var in [("solve", None)] + [(m, v) for v in sorted({0, nv - 1}) for m in ("min", "max")]:
+                    res = M.run_parent(solvers, mode, var, {}, [], [], "eager")
+                    acc.c["runs"] += 1
+                    acc.c["mp_runs"] += 1
+                    vectors = res.yielded if mode == "solve" else ([res.value] if res.value is not None else [])
+                    for x in vectors:
+                        acc.c["vectors_checked"] += 1
+                        why = SC.sol_ok(spec, x)
+                        if why:
+                            acc.violation(f"multiprocessing:{'enumerate' if mode == 'solve' else 'optimise'}:{SC.con_types(spec)}:{why}",
+                                          dict(SC.witness(spec, cfg, mode=mode, var=var, vector=list(x)), split=[k, idx]),
+                                          "a vector handed to the caller by the multiprocessing solver violates a domain, an offset or a posted relation")
+                    if vectors:
+                        acc.c["nt_runs_with_vectors"] += 1
+    return acc
+
+
 def run(tier, seed):
+    from mc import mpcases
+    from mc.runner import chunks, pmap
+
     t0 = time.time()
     acc, nspecs = SC.run_units(unit, tier, seed)
+    mp_specs = [s for s in mpcases.mp_specs(tier) if len(U.brute(s)) <= 40]
+    acc.merge(pmap(mp_unit, [(tier, c) for c in chunks(mp_specs, 6)], seed))
     cov = {
         "states": acc.c["runs"],
         "transitions": acc.c["propagator_executions"],
@@ -67,7 +109,8 @@ def run(tier, seed):
     return finish(PROP, tier, seed, "model_checking", acc, cov,
                   ["relation predicates of mc/contracts.py", "runs aborted by a budget / IndexError are judged by C04 / C16; "
                    "the vectors they delivered before aborting are still checked here",
-                   "the multiprocessing solver is covered by C11 (every merge yields exactly the workers' vectors)"],
+                   "the multiprocessing solver: every vector delivered over the real sub-problems of Problem.split(k, idx), k = 1..3, "
+                   "every idx, one canonical arrival order (every merge: C11, which shows that the vectors do not depend on the order)"],
                   t0, vacuity={"nt_runs_with_vectors": 1000})
 
 
